@@ -6,6 +6,6 @@ def run(tier, seed, update_ledger=False, only=None, jobs=None):
     hs = [h for h in cache_harnesses(tier) if not only or only in h.hid]
     return run_check("C10", hs, tier=tier, seed=seed, update_ledger=update_ledger, jobs=jobs,
                      unbounded_in=["history length (class invariant, induction over calls)", "all parameter and input values"],
-                     bounded_in={"features": "D = 2", "classes": "Stub (base-class logic), LULinear, OneByOneConvolution (quick); + QR (thorough); SVDLinear (cached-inverse equality unknown to z3) and NaiveLinear (opaque lu contract) are covered by the Stub-class proof of the shared base-class logic only"},
+                     bounded_in={"features": "D = 2", "classes": "Stub (base-class logic), LULinear, OneByOneConvolution, QRLinear, SVDLinear (orthogonal factors seen through the Householder contract), NaiveLinear (log-abs-det equalities through |prod diag(LU)| = |det W|)"},
                      assumptions=["nn.Module protocol: train(), load_state_dict(), _apply() call the overridable hooks the real classes define; optimiser steps update parameters in place and only in training mode",
                                   "accessors of the stub class are uninterpreted functions of the parameters (their mutual agreement is C11)"])
